@@ -1,4 +1,7 @@
 //! goml-verif: runtime-monitoring harness for lijunchen/goml (see /verif/DESIGN.md).
+mod capi;
+mod goldens;
+mod mutators;
 mod props;
 mod runner;
 mod util;
@@ -26,6 +29,7 @@ fn main() {
         std::process::exit(2);
     }
     match args[1].as_str() {
+        "goldens" => std::process::exit(goldens::main()),
         "list" => {
             for p in registry() {
                 println!("{}", p.id);
